@@ -91,6 +91,14 @@ Theorem C14_opes_same_list : forall (K : Type) (rounds : list (list K)) (n k : n
 Proof. exact @opes_same_list. Qed.
 Print Assumptions C14_opes_same_list.
 
+(* ... and the sums of weights that normalise the bias (sum of weights, sum of squared weights; neff, rct and the
+   kernel normalisation are functions of them and of the common counter): the running sum that every walker holds
+   is its initial value plus every contribution of every walker of every round, each exactly once. *)
+Theorem C14_opes_sums_total : forall (A : Type) (G : GrpOps A), GrpLaws G ->
+  forall (rounds : list (list A)) (s : A), opes_sums G s rounds = fold_left (gadd G) (concat rounds) s.
+Proof. exact opes_sums_total. Qed.
+Print Assumptions C14_opes_sums_total.
+
 (* The code before the repair of read_state_data (last := G on restart) violated the statement:
    C14_abf_union_once with `run G true`:  a sample collected after the last exchange is lost by a restart. *)
 Theorem C14_abf_union_once_before_repair_refuted :
